@@ -137,7 +137,7 @@ func (w *World) startFlowWith(host, target, held string) (*flow, error) {
 		cs = append(cs, &http.Cookie{Name: w.P.CSRFName, Value: held})
 	}
 	r := world.Do(w.P.Handler, world.NewReq("GET", host, target, nil, cs, ""))
-	if r.Status != 302 {
+	if !world.IsRedirect(r.Status) {
 		return nil, fmt.Errorf("start %s%s: status %d", host, target, r.Status)
 	}
 	loc, err := url.Parse(r.Header.Get("Location"))
